@@ -29,11 +29,14 @@ class C07(P.Property):
     real_stub = dict(deployment="as C09; additionally the scheme API is called directly (local branch) on the same inputs")
     assumptions = ["a setup or search that raises ends that branch without a verdict (after checking that the inputs are intact)"]
     probe_names = ["scheme_" + s for s in fe.SCHEMES] + ["local_branch", "server_branch", "multi_connection", "repeat_keyword", "absent_keyword",
-                                                          "server_index_compared", "nondefault_config", "decoy_service"]
+                                                          "server_index_compared", "nondefault_config", "decoy_service", "stored_key"]
 
     def setup(self):
         world.setup_frontend()
         self._c09 = C09()
+        import json, os
+        with open(os.path.join(os.path.dirname(__file__), "..", "..", "..", "fixtures", "keys.json")) as f:
+            self.key_fixtures = json.load(f)["keys"]
 
     def gen(self, seed, tier):
         rng = P.stream(seed, "workload")
@@ -52,7 +55,7 @@ class C07(P.Property):
         cuts = sorted(rng.sample(range(1, n), min(ncon - 1, n - 1))) if ncon > 1 else []
         knobs = dict(scheme=scheme, cfg_index=ci, db=db, cuts=cuts, gap=rng.choice([0, 0.5, 1.5]), sse2_spare=rng.choice([0, 3, 10]),
                      net=rng.choice([dict(lo=0.001, hi=0.05), dict(lo=0.001, hi=0.05, seg=3), dict(lo=0.0005, hi=0.004)]),
-                     skew=rng.choice([1.0, 1.0, 2.0]), bufsize=8192, decoy=rng.random() < 0.3)
+                     skew=rng.choice([1.0, 1.0, 2.0]), bufsize=8192, decoy=rng.random() < 0.3, stored_key=rng.choice([None, None, 0, 1, 2]))
         return {"property": "C07", "seed": seed, "knobs": knobs, "steps": steps}
 
     def execute(self, plan):
@@ -117,7 +120,16 @@ class C07(P.Property):
         cfg_before, db_before = copy.deepcopy(cfg), copy.deepcopy(db)
         try:
             S = L.SSEScheme(cfg)
-            K = S.KeyGen()
+            K = None
+            if plan["knobs"].get("stored_key") is not None and plan["knobs"]["cfg_index"] == 0:
+                # a key file written by an earlier run of the client (fixtures/keys.json) instead of a fresh KeyGen()
+                try:
+                    K = L.SSEKey.deserialize(bytes.fromhex(self.key_fixtures[scheme][plan["knobs"]["stored_key"] % 3]), S.config)
+                    probes["stored_key"] = 1
+                except Exception:
+                    K = None  # a format the current code no longer reads: not this property's business
+            if K is None:
+                K = S.KeyGen()
             kser = K.serialize()
             E = S.EDBSetup(K, db)
         except Exception as e:
@@ -268,7 +280,7 @@ class C07(P.Property):
 
     def simplifications(self, plan):
         k = plan["knobs"]
-        for key, val in (("skew", 1.0), ("net", dict(lo=0.01, hi=0.01)), ("cuts", []), ("gap", 0), ("cfg_index", 0), ("decoy", False)):
+        for key, val in (("skew", 1.0), ("net", dict(lo=0.01, hi=0.01)), ("cuts", []), ("gap", 0), ("cfg_index", 0), ("decoy", False), ("stored_key", None)):
             if k.get(key) != val:
                 yield dict(plan, knobs=dict(k, **{key: val}))
         db = k["db"]
